@@ -8,7 +8,7 @@ import posixpath
 from sa.astx import call_attr, call_name, src, walk_local
 from sa.selftest import Mutant, Silent
 from sa.source import AnalysisError, methods
-from sa.props._lib_f import (InterpError, call_sites, enclosing_try_handlers, from_here, handler_names, interpret, named_calls,
+from sa.props._lib_f import (InterpError, ModelRaised, call_repo, call_sites, enclosing_try_handlers, from_here, handler_names, interpret, named_calls,
                              param_names)
 
 PROPERTY = "C26"
@@ -22,7 +22,7 @@ EXPLANATION = (
     "twisted) in str and bytes mode for every name built from up to three segments of a hostile alphabet ('', '.', '..', a, root, root-evil, rootx, ..a) plus absolute, NUL, "
     "backslash and doubled-separator forms, against parents '/t/root' and '/': the result must be InsecurePath, the parent itself, or a direct child "
     "(child) / a path inside the subtree with a separator-aware boundary (preauthChild; F26, fixed), and ordinary names must still be accepted; "
-    "descendant is interpreted on segment lists over the same alphabet (its result must be InsecurePath or inside the subtree); (b) taint: in static.File.getChild the request segment reaches a path constructor only "
+    "descendant is interpreted on segment lists over the same alphabet (its result must be InsecurePath or inside the subtree); the str/bytes coercions used on the way (_asFilesystemText/_asFilesystemBytes/_coerceToFilesystemEncoding/_getPathAsSameTypeAs) are the repository's own functions, interpreted with the codecs delegated to CPython, and mixed-mode parents whose name is not valid UTF-8 are part of the grid (containment is compared byte-wise, so a lossy coercion shows); (b) static.File.getChild is interpreted as a whole over the hostile segments against a model file system that has a same-prefix sibling file and directory next to the root with ignoredExts=('.bak',): every resource returned stays inside the root; taint: in static.File.getChild the request segment reaches a path constructor only "
     "through self.child() inside a try that turns InsecurePath into childNotFound; File/Resource do not override child; a segment that is not UTF-8 "
     "gives childNotFound; (c) server.Request.process splits the path at '/' before unquoting each piece and resource.getChildForRequest hands each "
     "piece on whole, so an encoded separator stays inside one segment. Not decided: symbolic links (excluded by the statement), Windows path rules."
@@ -50,23 +50,59 @@ class InsecurePath(Exception):
     """stands for twisted.python.filepath.InsecurePath when a modelled method raises it"""
 
 
+REPO_HELPERS = ("_asFilesystemBytes", "_asFilesystemText", "_coerceToFilesystemEncoding")
+REPO_METHODS = ("child", "preauthChild", "_getPathAsSameTypeAs", "_asBytesPath", "_asTextPath", "siblingExtensionSearch", "childSearchPreauth", "siblingExtension")
+
+# model file system for the static.File evaluation: a web root, a same-prefix sibling *file* and *directory* next to it, and ordinary content
+FS = {"/": "dir", "/t": "dir", "/t/www": "dir", "/t/www.bak": "file", "/t/www-evil": "dir", "/t/www-evil/x": "file", "/t/secret": "file",
+      "/t/www/a": "file", "/t/www/page.bak": "file", "/t/www/sub": "dir", "/t/www/sub/b": "file", "/t/root": "dir"}
+
+
+def _b(p):
+    return p.encode("utf-8", "surrogateescape") if isinstance(p, str) else p
+
+
 class _FP:
-    """Model of a FilePath: holds the path; child()/preauthChild() are evaluated by interpreting the repository's own
-    FilePath.child / FilePath.preauthChild with os.path modelled by posixpath (nothing of twisted is executed)."""
+    """Model of a FilePath: holds the path; every path-computing method (child, preauthChild, the str/bytes coercions, the extension search) is evaluated by
+    interpreting the repository's own function with os.path modelled by posixpath and the codecs delegated to CPython (nothing of twisted is executed)."""
     _sa_model = True
 
-    def __init__(self, path, methods_):
+    def __init__(self, path, repo):
         self.path = path
-        self.methods_ = methods_
+        self.repo = repo
 
-    def _call(self, meth, name):
-        f = self.methods_[meth]
-        kind, val = interpret(f, {param_names(f)[1]: name, "self": self}, funcs=_model(self))
-        if kind == "raise":
-            if val == "InsecurePath":
-                raise InsecurePath(name)
-            raise RuntimeError(f"{meth} raises {val}")
-        return val
+    # -- evaluation of repository code
+    def _funcs(self):
+        if getattr(self, "_fcache", None) is not None:
+            return self._fcache
+        f = self._build_funcs()
+        self._fcache = f
+        return f
+
+    def _build_funcs(self):
+        f = {"platform.isWindows": lambda: False, "self.clonePath": self.clonePath, "sys.getfilesystemencoding": lambda: "utf-8",
+             "exists": lambda p: posixpath.normpath(_text(p)) in FS, "listdir": lambda p: sorted(posixpath.basename(k) for k in FS if posixpath.dirname(k) == posixpath.normpath(_text(p)) and k != "/"),
+             "self.exists": self.exists, "self.isdir": self.isdir, "self.isfile": self.isfile}
+        for nm in REPO_HELPERS:
+            f[nm] = self._helper(nm)
+        for nm in REPO_METHODS:
+            if nm in self.repo:
+                f["self." + nm] = self._method(nm)
+        return f
+
+    def _helper(self, nm):
+        return lambda *a, **k: call_repo(self.repo[nm], a, k, funcs=self._funcs())
+
+    def _method(self, nm):
+        return lambda *a, **k: call_repo(self.repo[nm], a, k, selfobj=self, funcs=self._funcs())
+
+    def _call(self, meth, *args):
+        try:
+            return call_repo(self.repo[meth], args, selfobj=self, funcs=self._funcs())
+        except ModelRaised as e:
+            if e.name == "InsecurePath":
+                raise InsecurePath(*args)
+            raise RuntimeError(f"{meth} raises {e.name}")
 
     def child(self, name):
         return self._call("child", name)
@@ -74,27 +110,36 @@ class _FP:
     def preauthChild(self, name):
         return self._call("preauthChild", name)
 
+    def siblingExtensionSearch(self, *exts):
+        return self._call("siblingExtensionSearch", *exts)
+
+    def childSearchPreauth(self, *names):
+        return self._call("childSearchPreauth", *names)
+
     def clonePath(self, p, *a):
-        return _FP(p, self.methods_)
+        return type(self)(p, self.repo) if type(self) is _FP else _FP(p, self.repo)
 
+    # -- model file system
+    def _norm(self):
+        return posixpath.normpath(_text(self.path))
 
-def _coerce(pattern, s):
-    if isinstance(pattern, bytes):
-        return s.encode("utf-8") if isinstance(s, str) else s
-    return s.decode("utf-8") if isinstance(s, bytes) else s
+    def exists(self):
+        return self._norm() in FS
 
+    def isdir(self):
+        return FS.get(self._norm()) == "dir"
 
-def _model(fp):
-    """callee text -> model, for the helpers of twisted.python.filepath that are not os / os.path (those are modelled by the evaluator itself)"""
-    return {
-        "_coerceToFilesystemEncoding": _coerce,
-        "self._getPathAsSameTypeAs": lambda pattern: _coerce(pattern, fp.path),
-        "self._asBytesPath": lambda *a: _coerce(b"", fp.path),
-        "self._asTextPath": lambda *a: _coerce("", fp.path),
-        "platform.isWindows": lambda: False,
-        "self.clonePath": fp.clonePath,
-        "exists": lambda p: True,
-    }
+    def isfile(self):
+        return FS.get(self._norm()) == "file"
+
+    def restat(self, *a, **k):
+        return None
+
+    def splitext(self):
+        return posixpath.splitext(self.path)
+
+    def basename(self):
+        return posixpath.basename(self.path)
 
 
 def _text(p):
@@ -102,18 +147,31 @@ def _text(p):
 
 
 def _inside(root, p, direct):
-    p = posixpath.normpath(_text(p))
+    """byte-wise containment (str paths are compared through the lossless surrogateescape encoding, so a lossy coercion shows)"""
+    root = _b(root)
+    p = posixpath.normpath(_b(p))
     if p == root:
         return True
-    base = root.rstrip("/") + "/"
+    base = root.rstrip(b"/") + b"/"
     if not p.startswith(base):
         return False
     rest = p[len(base):]
-    return ("/" not in rest) if direct else True
+    return (b"/" not in rest) if direct else True
 
 
 def _methods(ctx):
-    return {"child": ctx.func(FP, "FilePath.child"), "preauthChild": ctx.func(FP, "FilePath.preauthChild")}
+    mod = ctx.mod(FP)
+    repo = {}
+    for nm in REPO_HELPERS:
+        repo[nm] = ctx.func(FP, nm)
+    for nm in REPO_METHODS:
+        repo[nm] = ctx.func(FP, "FilePath." + nm)
+    return repo
+
+
+# (parent path, type of the names tried against it, subset of names?)  - the last two are the mixed-mode cases with a parent name that is not valid UTF-8
+PARENTS = [("/t/root", str, False), ("/t/root", bytes, False), ("/", str, True), ("/", bytes, True), (b"/t/root", str, True), (b"/t/root", bytes, True),
+           (b"/t/r\xffot", str, True), (b"/t/r\xffot", bytes, True), ("/t/r\udcffot", bytes, True)]
 
 
 def _semantics(ctx, meth, direct, rule):
@@ -121,38 +179,39 @@ def _semantics(ctx, meth, direct, rule):
     q = "twisted.python.filepath.FilePath." + meth
     bad, accepted, n = [], 0, 0
     names = _names()
+    short_names = [x for x in names if x.count("/") <= 1][:160]
     try:
-        for root in ROOTS:
-            for mode in (str, bytes):
-                fp = _FP(root, ms)
-                for name0 in names:
-                    name = name0.encode("utf-8") if mode is bytes else name0
-                    n += 1
-                    try:
-                        val = getattr(fp, meth)(name)
-                    except InsecurePath:
-                        continue
-                    except RuntimeError as e:
-                        bad.append((root, name, str(e)))
-                        continue
-                    if not isinstance(val, _FP) or not isinstance(val.path, mode):
-                        bad.append((root, name, f"returns {getattr(val, 'path', val)!r}"))
-                    elif not _inside(root, val.path, direct):
-                        bad.append((root, name, f"returns {val.path!r}"))
-                    else:
-                        accepted += 1
-                # ordinary names are accepted and land where expected
-                for name0, want in (("a", root.rstrip("/") + "/a"), ("..a", root.rstrip("/") + "/..a")) + ((("a/root", root.rstrip("/") + "/a/root"),) if not direct else ()):
-                    name = name0.encode("utf-8") if mode is bytes else name0
-                    try:
-                        val = getattr(fp, meth)(name)
-                        got = _text(val.path) if isinstance(val, _FP) else repr(val)
-                    except (InsecurePath, RuntimeError) as e:
-                        got = f"raises {type(e).__name__}"
-                    if got != want:
-                        bad.append((root, name, f"gives {got!r} instead of {want!r}"))
+        for root, mode, subset in PARENTS:
+            fp = _FP(root, ms)
+            for name0 in (short_names if subset else names):
+                name = name0.encode("utf-8") if mode is bytes else name0
+                n += 1
+                try:
+                    val = getattr(fp, meth)(name)
+                except InsecurePath:
+                    continue
+                except RuntimeError as e:
+                    bad.append((root, name, str(e)))
+                    continue
+                if not isinstance(val, _FP) or not isinstance(val.path, mode):
+                    bad.append((root, name, f"returns {getattr(val, 'path', val)!r}"))
+                elif not _inside(root, val.path, direct):
+                    bad.append((root, name, f"returns {val.path!r}"))
+                else:
+                    accepted += 1
+            # ordinary names are accepted and land where expected
+            rb = _b(root).rstrip(b"/")
+            for name0, want in (("a", rb + b"/a"), ("..a", rb + b"/..a")) + ((("a/root", rb + b"/a/root"),) if not direct else ()):
+                name = name0.encode("utf-8") if mode is bytes else name0
+                try:
+                    val = getattr(fp, meth)(name)
+                    got = _b(val.path) if isinstance(val, _FP) else repr(val)
+                except (InsecurePath, RuntimeError) as e:
+                    got = f"raises {type(e).__name__}"
+                if got != want:
+                    bad.append((root, name, f"gives {got!r} instead of {want!r}"))
     except InterpError as e:
-        raise AnalysisError(f"C26: FilePath.{meth} uses a construct the evaluator cannot interpret: {e}")
+        raise AnalysisError(f"C26: FilePath.{meth} (or a coercion helper it uses) has a construct the evaluator cannot interpret: {e}")
     msg = ""
     if bad:
         r, nm, what = bad[0]
@@ -171,6 +230,8 @@ def check(ctx):
         _descendant(ctx)
     with ctx.section("static"):
         _static(ctx)
+    with ctx.section("static-evaluated"):
+        _static_evaluated(ctx)
     with ctx.section("server"):
         _server(ctx)
 
@@ -186,24 +247,24 @@ def _descendant(ctx):
     cases = [[a_] for a_ in singles] + [[a_, b_] for a_ in singles for b_ in singles] + [["a", "b", ".."], ["a", "..", ".."], ["a", "b", "c"]]
     bad, n = [], 0
     try:
-        for root in ROOTS:
-            for mode in (str, bytes):
-                for segs0 in cases:
+        for root, mode in [(r_, m_) for r_ in ROOTS for m_ in (str, bytes)] + [(b"/t/r\xffot", str)]:
+            if True:
+                for segs0 in cases if isinstance(root, str) else cases[:60]:
                     segs = [x.encode("utf-8") if mode is bytes else x for x in segs0]
                     n += 1
                     fp = _FP(root, ms)
-                    kind, val = interpret(f, {seg: segs, "self": fp}, funcs=_model(fp))
+                    kind, val = interpret(f, {seg: segs, "self": fp}, funcs=fp._funcs())
                     if kind == "raise":
                         if val != "InsecurePath":
                             bad.append((root, segs, f"raises {val}"))
                         continue
                     if not isinstance(val, _FP) or not _inside(root, val.path, False):
                         bad.append((root, segs, f"returns {getattr(val, 'path', val)!r}"))
-                for segs0, want in ((["a", "b"], root.rstrip("/") + "/a/b"), ([], root)):
+                for segs0, want in ((["a", "b"], _b(root).rstrip(b"/") + b"/a/b"), ([], _b(root))):
                     segs = [x.encode("utf-8") if mode is bytes else x for x in segs0]
                     fp = _FP(root, ms)
-                    kind, val = interpret(f, {seg: segs, "self": fp}, funcs=_model(fp))
-                    if kind != "return" or not isinstance(val, _FP) or _text(val.path) != want:
+                    kind, val = interpret(f, {seg: segs, "self": fp}, funcs=fp._funcs())
+                    if kind != "return" or not isinstance(val, _FP) or _b(val.path) != want:
                         bad.append((root, segs, f"gives {kind} {getattr(val, 'path', val)!r} instead of {want!r}"))
     except InterpError as e:
         raise AnalysisError(f"C26: descendant() uses a construct the evaluator cannot interpret: {e}")
@@ -295,6 +356,66 @@ def _static(ctx):
     ctx.check(any(b.startswith("filepath.FilePath") for b in bases), "static/child-not-overridden", "twisted.web.static.File | bases", f"File no longer derives from filepath.FilePath: {bases}")
 
 
+class _File(_FP):
+    """model of a static.File rooted at /t/www (see FS): getChild is interpreted as a whole; the FilePath methods it calls are interpreted too"""
+    childNotFound = "<childNotFound>"
+    indexNames = ["index", "index.html"]
+    ignoredExts = (".bak",)
+    processors: dict = {}
+    registry = None
+    type = None
+
+    def directoryListing(self):
+        return "<directory listing>"
+
+    def createSimilarFile(self, path):
+        return ("File", path)
+
+
+def _static_evaluated(ctx):
+    f = ctx.func(ST, "File.getChild")
+    q = "twisted.web.static.File.getChild"
+    ms = _methods(ctx)
+    root = "/t/www"
+    segs = sorted(set(_names()[:0] + SEGS + SPECIAL + ["a", "page", "sub", "www", "www.bak", "../www.bak", ".", "./", ".//", "sub/..", "a/..", "x/..", "sub/../", "..", "../", "../www", "../www/",
+                                                  "../www/a", "../www-evil", "../www-evil/x", "../secret", "/t/secret", "www-evil", "page.bak", "nothere", ""]))
+    bad = []
+    n = 0
+    try:
+        for s0 in segs:
+            n += 1
+            me = _File(root, ms)
+            funcs = me._funcs()
+            funcs.update({"log.err": lambda *a, **k: None, "log.msg": lambda *a, **k: None, "resource.IResource": lambda x: x, "InsensitiveDict": lambda d: d})
+            kind, val = interpret(f, {"self": me, param_names(f)[1]: s0.encode("utf-8", "surrogateescape"), param_names(f)[2]: None},
+                                  {"platformType": "posix"}, funcs=funcs)
+            if kind == "raise":
+                bad.append((s0, f"raises {val}"))
+            elif isinstance(val, tuple) and val and val[0] == "File":
+                if not _inside(root, val[1], False):
+                    bad.append((s0, f"serves {val[1]!r}"))
+            elif val not in (_File.childNotFound, "<directory listing>"):
+                bad.append((s0, f"returns {val!r}"))
+        kind, val = interpret(f, {"self": _File(root, ms), param_names(f)[1]: b"a\xff", param_names(f)[2]: None}, {"platformType": "posix"},
+                              funcs=dict(_File(root, ms)._funcs(), **{"log.err": lambda *a, **k: None}))
+        if (kind, val) != ("return", _File.childNotFound):
+            bad.append(("a\\xff", f"{kind} {val!r} instead of childNotFound"))
+        kind, val = interpret(f, {"self": _File(root, ms), param_names(f)[1]: b"a", param_names(f)[2]: None}, {"platformType": "posix"}, funcs=_File(root, ms)._funcs())
+        if (kind, val) != ("return", ("File", "/t/www/a")):
+            bad.append(("a", f"{kind} {val!r} instead of the file /t/www/a"))
+        kind, val = interpret(f, {"self": _File(root, ms), param_names(f)[1]: b"page", param_names(f)[2]: None}, {"platformType": "posix"}, funcs=_File(root, ms)._funcs())
+        if (kind, val) != ("return", ("File", "/t/www/page.bak")):
+            bad.append(("page", f"{kind} {val!r} instead of /t/www/page.bak (ignored extension)"))
+    except InterpError as e:
+        raise AnalysisError(f"C26: static.File.getChild (or a FilePath method it uses) has a construct the evaluator cannot interpret: {e}")
+    msg = ""
+    if bad:
+        sg, why = bad[0]
+        msg = (f"static.File('/t/www').getChild({sg.encode()!r}) {why}: outside the directory tree (model file system with a sibling file /t/www.bak and directory /t/www-evil, "
+               f"ignoredExts=('.bak',)); {len(bad)} of {n} segments misjudged")
+    ctx.check(not bad, "static/evaluated-containment", q, msg, detail=f"{n} request segments")
+
+
 def _server(ctx):
     f = ctx.func(SV, "Request.process")
     q = "twisted.web.server.Request.process"
@@ -338,6 +459,9 @@ MUTANTS = [
            "        return self.clonePath(newpath)\n\n    def preauthChild"),
     Mutant("preauth-joins-without-normalising", FP, "        newpath = abspath(joinpath(ourPath, normpath(path)))\n        if newpath != ourPath and", "        newpath = joinpath(ourPath, normpath(path))\n        if newpath != ourPath and"),
     Mutant("preauth-no-trailing-separator", FP, "not newpath.startswith(ourPath.rstrip(sep) + sep):", "not newpath.startswith(ourPath.rstrip(sep)):"),
+    Mutant("extension-search-also-for-directories", ST, "        if not fpath.exists():\n            fpath = fpath.siblingExtensionSearch(*self.ignoredExts)\n            if fpath is None:\n                return self.childNotFound\n",
+           "        if not fpath.exists() or fpath.isdir():\n            found = fpath.siblingExtensionSearch(*self.ignoredExts)\n            if found is None and not fpath.exists():\n                return self.childNotFound\n            fpath = found or fpath\n"),
+    Mutant("coercion-to-text-is-lossy", FP, "        return path.decode(encoding, errors=\"surrogateescape\")", "        return path.decode(encoding, errors=\"ignore\")"),
     Mutant("getChild-uses-preauthChild", ST, "                fpath = self.child(path)\n", "                fpath = self.preauthChild(path)\n"),
     Mutant("getChild-joins-directly", ST, "                fpath = self.child(path)\n", "                fpath = self.clonePath(os.path.join(self.path, path))\n"),
     Mutant("getChild-insecurepath-unhandled", ST, "            try:\n                fpath = self.child(path)\n            except filepath.InsecurePath:\n                return self.childNotFound\n",
@@ -349,6 +473,10 @@ MUTANTS = [
     Mutant("index-search-from-request", ST, "            fpath = self.childSearchPreauth(*self.indexNames)", "            fpath = self.childSearchPreauth(*(request.args.get(b\"index\") or self.indexNames))"),
 ]
 SILENT = [
+    Silent("extension-search-guard-rewritten", ST, "        if not fpath.exists():\n            fpath = fpath.siblingExtensionSearch(*self.ignoredExts)\n            if fpath is None:\n                return self.childNotFound\n",
+           "        if fpath.exists():\n            pass\n        else:\n            found = fpath.siblingExtensionSearch(*self.ignoredExts)\n            if found is None:\n                return self.childNotFound\n            fpath = found\n"),
+    Silent("coercion-explicit-codec-lookup", FP, "        if encoding is None:\n            encoding = sys.getfilesystemencoding()\n        return path.decode(encoding, errors=\"surrogateescape\")",
+           "        codec = encoding if encoding is not None else sys.getfilesystemencoding()\n        return path.decode(codec, \"surrogateescape\")"),
     Silent("descendant-via-preauthChild-still-contained", FP, "        for name in segments:\n            path = path.child(name)\n        return path", "        for name in segments:\n            path = path.preauthChild(name)\n        return path"),
     Silent("child-explicit-pardir-test-keeps-recheck", FP, "        norm = normpath(path)\n        if sep in norm:", "        if path == _coerceToFilesystemEncoding(path, os.pardir):\n            raise InsecurePath(f\"{path!r} is the parent directory\")\n        norm = normpath(path)\n        if sep in norm:"),
     Silent("preauth-commonpath-real", FP, "        if newpath != ourPath and not newpath.startswith(ourPath.rstrip(sep) + sep):", "        if os.path.commonpath([newpath, ourPath]) != ourPath:"),
